@@ -87,10 +87,14 @@ def lift(v):
         return z3.BoolVal(v)
     if isinstance(v, int):
         return z3.IntVal(v)
+    if isinstance(v, float) and v != v:
+        return z3.Real("NaN")        # the distinguished NaN constant (pyvc.npmodels.NAN)
     if isinstance(v, (float, fractions.Fraction)):
         return real_val(v)
     try:
         import numpy as np
+        if isinstance(v, np.floating) and v != v:
+            return z3.Real("NaN")
         if isinstance(v, np.bool_):
             return z3.BoolVal(bool(v))
         if isinstance(v, np.integer):
@@ -621,9 +625,15 @@ class SArr:
         from . import models
         return models.np_all(self, axis=axis)
 
-    def sum(self, axis=None):
+    def sum(self, axis=None, keepdims=False):
         from . import models
-        return models.np_sum(self, axis=axis)
+        return models.np_sum(self, axis=axis, keepdims=keepdims)
+
+    def cumsum(self, axis=None):
+        from . import models
+        if self.ndim == 2 and axis is None:
+            return models.np_cumsum(None, self.ravel())      # ndarray.cumsum() flattens
+        return models.np_cumsum(None, self)
 
     def mean(self, axis=None):
         from . import models
